@@ -1766,6 +1766,40 @@ fn kernel_line(t: &[&str]) -> String {
       };
       if after[0].body.iter().any(|s| s.as_while().is_some()) { "kept".to_string() } else { "fired".to_string() }
     }
+    "ccpif" if t.len() == 6 => {
+      // `ccpif E1 E2 S1 S2 NFA`: if c { S1 } else { S2 } with final assignments r = (E1, E2) [, q = (p0, p1)]
+      let blk = |s: &str, k: u32| match s {
+        "p" => format!("call print 1 {k} _"),
+        "d" => format!("bin t{k} div 7 p1 call print 1 t{k} _"),
+        _ => String::new(),
+      };
+      let nfa: usize = t[5].parse().unwrap_or(0);
+      let fas = match nfa {
+        0 => String::new(),
+        1 => format!("r {} {}", t[1], t[2]),
+        _ => format!("r {} {} q p0 p1", t[1], t[2]),
+      };
+      let use_ = match nfa {
+        0 => "bin z add c 0",
+        1 => "bin z add r 5",
+        _ => "bin w add r q bin z mul w 3",
+      };
+      let text = format!(
+        "fn f0 2 bin c gt p0 p1 if c {{ {} }} {{ {} }} {nfa} {fas} {use_} call print 1 z _ ret z end",
+        blk(t[3], 1),
+        blk(t[4], 2)
+      );
+      let mut heap = Heap::new();
+      let before = match parse_program(&mut heap, &text) {
+        Ok(f) => f,
+        Err(e) => return format!("bad-program {e}"),
+      };
+      let after = match apply_pass(&mut heap, &before, "ccp", 31) {
+        Ok(f) => f,
+        Err(_) => return "panic".to_string(),
+      };
+      if after[0].body.iter().any(|s| s.as_if_else().is_some()) { "kept".to_string() } else { "gone".to_string() }
+    }
     "dcel" if t.len() >= 2 => {
       // `dcel RET <block>`: real dead_code_elimination on a block with SingleIf / IfElse
       let mut heap = Heap::new();
